@@ -15,10 +15,10 @@ def nontrivial(case, impl):
 
 
 def run(ctx):
-    obl = C.coq_obligations(ctx.pid, ["Extract/ExtractC01.vo"])
+    obl = C.coq_obligations(ctx.pid, ["Extract/ExtractC01.vo"], more_props=["C01Smith"])
     extra = {}
     if ctx.thorough:
-        extra.update(C.coqchk(ctx.pid))
+        extra.update(C.coqchk(ctx.pid, more_props=["C01Smith"]))
     corr = C.correspondence(ctx, "c01", nontrivial)
     # hash-order independence: a second, fresh process must print the identical implementation results
     if corr.get("ok"):
